@@ -3,7 +3,8 @@
     with /repo; and the boolean specification [denote] evaluated on what /repo
     answered. *)
 From Perf Require Import Base.Bytes Base.Sx Base.Rune Model.Name Model.Extract
-  Model.Unquote Model.Tok Model.FilterAst Model.FilterParse Model.ProjParse Model.FilterEval.
+  Model.Unquote Model.Tok Model.FilterAst Model.FilterParse Model.ProjParse Model.FilterEval
+  Model.FilterGrammarSpec.
 From Perf Require Corr.RunC07.
 
 Definition retable := list (bytes * bytes * bool).
@@ -121,12 +122,35 @@ Fixpoint needs_ok (rt : retable) (f : filter) (r : fresult) : bool :=
 Definition parse_projs (ot : RunC07.oracle) (projs : list bytes) : option (list (list pfield)) :=
   omap (fun p => match RunC07.np_ ot p with Ok l => Some l | _ => None end) projs.
 
-(** histories: [ps] = the projections whose Parse SUCCEEDED so far.  The
-    generator gives no fixed list to .fullname in histories (its extractor is
-    frozen at the first result seen, which a history interleaves with Parse
-    calls); [no_fixed_fullname] guards that restriction. *)
-Definition no_fixed_fullname (l : list pfield) : bool :=
-  forallb (fun p => negb (beq (pf_key p) key_fullname && beq (pf_order p) ord_fixed)) l.
+(** histories: [ps] = the projections whose Parse SUCCEEDED so far.
+
+    Contract of ProjectionParser (benchproc/projection.go: "Fields below here
+    are constructed when the first Result is processed"; "we delay
+    constructing the extractor until we process the first Result"; "This
+    closure doesn't get called until we've parsed all projections"): the
+    exclusions of the group key .fullname are collected from ALL Parse calls
+    and fixed when the first result reaches a .fullname extractor.  A history
+    is inside that contract iff no SUCCESSFUL Parse adds a sub-name key or
+    .name to the exclusions once a result has been matched or applied after a
+    fixed list on .fullname was parsed ([armed] = such a list was parsed,
+    [frozen] = a result was processed since).  Failed Parse calls are
+    unrestricted, before and after: they must contribute nothing.  The guard is
+    a predicate of the INPUT (the projection texts, through the C07 model). *)
+Definition has_fixed_fullname (l : list pfield) : bool :=
+  existsb (fun p => beq (pf_key p) key_fullname && beq (pf_order p) ord_fixed) l.
+Definition adds_fullname_keys (l : list pfield) : bool := negb (is_nil (fullname_keys [l])).
+
+Fixpoint hist_contract (ot : RunC07.oracle) (armed frozen : bool) (steps : list hstep) : bool :=
+  match steps with
+  | [] => true
+  | HParse p _ _ :: tl =>
+      match RunC07.np_ ot p with
+      | Ok l => negb (frozen && adds_fullname_keys l)
+                && hist_contract ot (armed || has_fixed_fullname l) frozen tl
+      | _ => hist_contract ot armed frozen tl
+      end
+  | _ :: tl => hist_contract ot armed (frozen || armed) tl
+  end.
 
 (** model: Parse conjoins the fixed fields iff the whole expression is accepted *)
 Fixpoint hist_corr (ot : RunC07.oracle) (rt : retable) (f : filter) (ps : list (list pfield))
@@ -135,7 +159,7 @@ Fixpoint hist_corr (ot : RunC07.oracle) (rt : retable) (f : filter) (ps : list (
   | [] => true
   | HParse p _ ok :: tl =>
       match RunC07.np_ ot p with
-      | Ok l => ok && no_fixed_fullname l && hist_corr ot rt f (ps ++ [l]) tl
+      | Ok l => ok && hist_corr ot rt f (ps ++ [l]) tl
       | _ => negb ok && hist_corr ot rt f ps tl
       end
   | HMatch ri matched all any :: tl =>
@@ -155,6 +179,24 @@ Fixpoint hist_corr (ot : RunC07.oracle) (rt : retable) (f : filter) (ps : list (
           nat_list_eqb kept remaining && Bool.eqb ret aret)
       && hist_corr ot rt f ps tl
   end.
+
+(** All / Any / the value Apply returns, as the property states them, for
+    EVERY measurement count including 0: All = every measurement matches
+    (true of none), Any = some measurement matches, Apply reports whether any
+    remain.  [want] = the measurements the expression denotes.
+
+    [relax] is the judge of the known finding C06_empty_result_answers and
+    admits exactly its deviation: on a result WITHOUT measurements the code
+    answers All and Any either as over an empty mask (true / false) or both
+    with the whole-result value of the expression ([d0], every .unit term
+    false), and Apply returns All although nothing remains. *)
+Definition answers_ok (relax : bool) (n : nat) (want : list nat) (d0 : bool)
+           (all any : bool) (ret : option bool) : bool :=
+  (Bool.eqb all (Nat.eqb (length want) n) && Bool.eqb any (negb (is_nil want))
+   && match ret with Some b => Bool.eqb b (negb (is_nil want)) | None => true end)
+  || (relax && Nat.eqb n 0
+      && ((all && negb any) || (Bool.eqb all d0 && Bool.eqb any d0))
+      && match ret with Some b => Bool.eqb b all | None => true end).
 
 (** specification: at every Match / Apply the Filter denotes (every fixed
     field of every projection whose Parse SUCCEEDED keeps the result) and (the
@@ -185,7 +227,7 @@ Fixpoint hist_prop (ot : RunC07.oracle) (rt : retable) (f : filter) (ps : list (
       let want := if fixed_keeps (fullname_keys ps) ps r
                   then idxs n (denote (re_match rt) f r) else [] in
       nat_list_eqb remaining want
-      && (if (1 <=? n)%nat then Bool.eqb ret (negb (is_nil want)) else true)
+      && Bool.eqb ret (negb (is_nil want))
       && hist_prop ot rt f ps tl
   end.
 
@@ -193,7 +235,7 @@ Definition corr_ok (c : case) : bool :=
   match c with
   | CHist q ot rt steps =>
       match RunC07.nf_ ot q with
-      | Ok f => hist_corr ot rt f [] steps
+      | Ok f => hist_contract ot false false steps && hist_corr ot rt f [] steps
       | _ => false
       end
   | CFilter q ot ast ri rt matched oob all any aret remaining unch =>
@@ -228,17 +270,25 @@ Definition corr_ok (c : case) : bool :=
       end
   end.
 
-(** specification on the observed answers *)
-Definition prop_ok (c : case) : bool :=
+(** the meaning of an expression TEXT is stated by the documented grammar
+    (Model/FilterGrammarSpec.v [derives]: AND binds tighter than OR, '-' takes
+    one match, a value list is a disjunction).  The tree [f] on which [denote]
+    is evaluated is produced by the model of the parser, so it is CERTIFIED per
+    case: the recogniser must derive exactly this tree from the whole text. *)
+Definition gram_ok (ot : RunC07.oracle) (q : bytes) (f : filter) : bool :=
+  grammar_ok RunC07.sp (RunC07.re_lookup ot) q f.
+
+(** specification on the observed answers ([relax] = false) *)
+Definition prop_gen (relax : bool) (c : case) : bool :=
   match c with
   | CHist q ot rt steps =>
       match RunC07.nf_ ot q with
-      | Ok f => hist_prop ot rt f [] steps
+      | Ok f => gram_ok ot q f && hist_prop ot rt f [] steps
       | _ => false
       end
   | CFilter q ot ast ri rt matched oob all any aret remaining unch =>
-      (* the meaning of the expression TEXT: the tree the documented grammar
-         gives it (Model/FilterParse.v), not the tree the implementation's
+      (* the meaning of the expression TEXT: a tree the documented grammar
+         derives from it ([gram_ok]), not the tree the implementation's
          parser produced - a parser that reads "x OR *" as "x" is judged here *)
       match RunC07.nf_ ot q, ast with
       | Ok f, RunC07.OOk _ =>
@@ -246,13 +296,11 @@ Definition prop_ok (c : case) : bool :=
           let n := length (fr_units r) in
           let want := idxs n (denote (re_match rt) f r) in
           (* measurement i matches iff the expression is true of it *)
-          nat_list_eqb matched want && oob
-          && Bool.eqb all (Nat.eqb (length want) n)
-          && Bool.eqb any (negb (is_nil want))
+          gram_ok ot q f && nat_list_eqb matched want && oob
           (* Match leaves the result untouched; Apply keeps exactly the matching
-             measurements in order and reports whether any remain (n >= 1) *)
+             measurements in order and reports whether any remain (every n) *)
           && unch && nat_list_eqb remaining want
-          && (if (1 <=? n)%nat then Bool.eqb aret (negb (is_nil want)) else true)
+          && answers_ok relax n want (denote (re_match rt) f r 0) all any (Some aret)
       | _, _ => false
       end
   | CFixed q projs ot ri rt matched all any pvals =>
@@ -273,15 +321,21 @@ Definition prop_ok (c : case) : bool :=
              declarative [fixed_keeps] of Model/FilterEval.v *)
           let want_spec := if fixed_keeps (fullname_keys ps) ps r
                            then idxs n (denote (re_match rt) f r) else [] in
-          nat_list_eqb matched want && nat_list_eqb matched want_spec
-          && Bool.eqb all (Nat.eqb (length want) n)
-          && Bool.eqb any (negb (is_nil want))
+          gram_ok ot q f && nat_list_eqb matched want && nat_list_eqb matched want_spec
+          && answers_ok relax n want (fixed_ok && denote (re_match rt) f r 0) all any None
       | _, _ => false
       end
   end.
 
+Definition prop_ok (c : case) : bool := prop_gen false c.
+
+(** known finding C06_empty_result_answers (tag c06_result_without_measurements):
+    everything the property demands, except the answers of All / Any / Apply on
+    a result without measurements (see [answers_ok]) *)
+Definition known_ok (c : case) : bool := prop_gen true c.
+
 Definition run_case (s : sx) : N :=
   match decode s with
-  | Some c => code_of (corr_ok c) (prop_ok c)
+  | Some c => code_of3 (corr_ok c) (prop_ok c) (known_ok c)
   | None => code_undecodable
   end.
